@@ -1,6 +1,7 @@
 package raft
 
 import (
+	"encoding/json";
 	"fmt";
 	"errors";
 	"io";
@@ -17,11 +18,46 @@ type NodesManager struct {
 	zeroGroup *RaftGroup
 }
 
-func NewNodesManager(clusterConn *cluster.Conn, zeroGroup *RaftGroup) *NodesManager {
-	return &NodesManager {
+// The address book is built from the membership entries of the zero group's log. Once the log
+// is compacted those entries are gone, so the book travels with the snapshot: snapshots is the
+// consumer slot of the zero group (a shared group proxy) the book is saved to and restored from.
+func NewNodesManager(clusterConn *cluster.Conn, zeroGroup *RaftGroup, snapshots Group) (*NodesManager, error) {
+	nm := &NodesManager {
 		clusterConn: clusterConn,
 		zeroGroup: zeroGroup,
 	}
+
+	if err := snapshots.RegisterProcessFn(func([]byte) error { return nil }); err != nil {
+		return nil, err
+	}
+	if err := snapshots.RegisterSnapshotFn(nm.snapshot); err != nil {
+		return nil, err
+	}
+	if err := snapshots.RegisterProcessSnapshotFn(nm.processSnapshot); err != nil {
+		return nil, err
+	}
+	return nm, nil
+}
+
+func (this *NodesManager) snapshot() ([]byte, error) {
+	return json.Marshal(this.clusterConn.Nodes())
+}
+
+func (this *NodesManager) processSnapshot(data []byte) error {
+	nodes := make(map[uint64]string)
+	if err := json.Unmarshal(data, &nodes); err != nil {
+		return err
+	}
+
+	for id, _ := range this.clusterConn.Nodes() {
+		if _, exists := nodes[id]; !exists && id != this.clusterConn.Id() {
+			this.clusterConn.RemoveNode(id)
+		}
+	}
+	for id, address := range nodes {
+		this.clusterConn.AddNode(id, address)
+	}
+	return nil
 }
 
 func (this *NodesManager) Join(ctx context.Context, addresses []string) error {
